@@ -423,6 +423,11 @@ def rule_binder_align(ctx):
                 if qual == "expand_struct":
                     if f"syn::Member::Unnamed({i}.into())" not in body or "syn::Member::Named" not in body or f"{fv}.ident" not in body:
                         ctx.report(f"{rel}::{qual}:member", where, f"the member read in `{qual}` is not `Member::Unnamed({i})` / `Member::Named(ident)` of the same field", {})
+            # the shared helper instead of an own closure: `x.fields.fmt_args_idents()` (checked below to use the same scheme)
+            for mc_, _ in A.method_calls(fn.block, "fmt_args_idents"):
+                if A.render(mc_["receiver"]).endswith(".fields"):
+                    n += 1
+                    ctx.instance(f"{rel}::{qual}:binder-helper", sample={"fn": f"{rel}::{qual}", "over": A.render(mc_["receiver"])})
     # enum matchers: the complete binder list, in order, for both variant shapes (a positional pattern binding only a
     # subset of the fields, `Self::V(_1, ..)`, binds `_1` to the *first* field)
     for rel in (DISPLAY, DEBUG):
@@ -435,11 +440,11 @@ def rule_binder_align(ctx):
             if not init:
                 continue
             r = A.render(init["expr"])
-            if "format_ident!" in r and "_{" in r:
+            if ("format_ident!" in r and "_{" in r) or re.fullmatch(r"\w+\.fields\.fmt_args_idents\(\)", r):
                 binder = (A.render_pat(loc["pat"]), r, loc)
         tt = [T.ir_text(t.ir).replace(" ", "") for t in T.templates_of(fn, composed=True)]
         pats = [x for x in tt if x.startswith("Self::#")]
-        if binder is None or not re.fullmatch(r"\w+", binder[0]) or not re.fullmatch(r"\w+\.fields\.iter\(\)\.enumerate\(\)\.map\(.*\)", binder[1]):
+        if binder is None or not re.fullmatch(r"\w+", binder[0]) or not re.fullmatch(r"\w+\.fields\.iter\(\)\.enumerate\(\)\.map\(.*\)|\w+\.fields\.fmt_args_idents\(\)", binder[1]):
             ctx.report(
                 f"{rel}::expand_enum:matcher-binders",
                 ctx.where(f, (binder[2] if binder else fn.node)),
@@ -854,12 +859,29 @@ def rule_lookup_agreement(ctx):
     a = A.get_fn(ctx.files, MOD, "FmtAttribute::bounded_types")
     b = A.get_fn(ctx.files, MOD, "FmtAttribute::placeholders_by_arg")
     arms = {}
+
+    def _lookup_matches(fn):
+        """the `match <placeholder>.arg { Named.., Positional.. }` of `fn`, or of the same-file helper it hands `placeholder.arg` to"""
+        got = [mt for mt, _ in A.find(fn.block, "Expr::Match") if "placeholder.arg" in A.render(mt["expr"])]
+        if got:
+            return got
+        for c, _ in list(A.find(fn.block, "Expr::MethodCall")) + list(A.find(fn.block, "Expr::Call")):
+            if not any("placeholder.arg" in A.render(x) for x in c["args"]):
+                continue
+            nm = c["method"]["sym"] if A.kind(c) == "Expr::MethodCall" else A.path_last(c["func"])
+            hs = [g for g in A.functions(fn.file) if g.name == nm and g.block is not None and g is not fn]
+            if len(hs) == 1:
+                prm = [x for p_ in hs[0].node["sig"]["inputs"] if A.kind(p_) == "FnArg::Typed" for x in A.pat_idents(p_["0"]["pat"])]
+                got = [mt for mt, _ in A.find(hs[0].block, "Expr::Match") if A.render(A.peel(mt["expr"])).lstrip("*&") in prm]
+                if got:
+                    return got
+        return []
+
     for fn in (a, b):
-        for mt, _ in A.find(fn.block, "Expr::Match"):
-            if "placeholder.arg" in A.render(mt["expr"]):
-                for arm in mt["arms"]:
-                    key = "Named" if "Named" in A.render_pat(arm["pat"]) else "Positional" if "Positional" in A.render_pat(arm["pat"]) else A.render_pat(arm["pat"])
-                    arms.setdefault(key, {})[fn.qual] = arm
+        for mt in _lookup_matches(fn):
+            for arm in mt["arms"]:
+                key = "Named" if "Named" in A.render_pat(arm["pat"]) else "Positional" if "Positional" in A.render_pat(arm["pat"]) else A.render_pat(arm["pat"])
+                arms.setdefault(key, {})[fn.qual] = arm
     if set(arms) != {"Named", "Positional"} or any(len(v) != 2 for v in arms.values()):
         raise A.AnchorLost(f"{MOD}::bounded_types/placeholders_by_arg", f"arms found: { {k: list(v) for k, v in arms.items()} }")
     REF = {
@@ -945,10 +967,34 @@ def _arm_decisions(fn, scrut_contains):
     return out
 
 
+def _shared_info_components(fn):
+    """what `shared_attr_info` returns, whatever the carrier: {tuple position or struct field name: (role, rendered expr)};
+    the component that conjoins the presence flag with something else is WRAPPING, the other one HAS_SHARED"""
+    si = [g for g in A.functions(fn.file) if g.name == "shared_attr_info" and g.block is not None]
+    if len(si) != 1 or not si[0].block["stmts"]:
+        return {}
+    last = si[0].block["stmts"][-1]
+    e = last.get("0") if A.kind(last) == "Stmt::Expr" else None
+    e = A.peel(e) if e is not None else None
+    comps = {}
+    if e is not None and A.kind(e) == "Expr::Tuple":
+        comps = {i: x for i, x in enumerate(e["elems"])}
+    elif e is not None and A.kind(e) == "Expr::Struct":
+        comps = {fv["member"]["0"]["sym"]: fv["expr"] for fv in e["fields"] if A.kind(fv["member"]) == "Member::Named"}
+    if len(comps) != 2:
+        return {}
+    out = {}
+    for k_, x in comps.items():
+        r = A.render(x)
+        out[k_] = ("WRAPPING" if "&&" in r else "HAS_SHARED", r)
+    return out if sorted(v[0] for v in out.values()) == ["HAS_SHARED", "WRAPPING"] else {}
+
+
 def _shared_roles(fn):
     """{local name: role} for the two flags destructured from `self.shared_attr_info()` and for the local that
     receives the per-arm 'mix the shared attribute in' decision"""
     roles = {}
+    comps = _shared_info_components(fn)
     for st, _ in A.find(fn.block, "Stmt::Local"):
         init = st.get("init")
         if not init:
@@ -957,8 +1003,14 @@ def _shared_roles(fn):
         if r == "self.shared_attr_info()" and A.kind(st["pat"]) == "Pat::Tuple":
             names = [A.render_pat(x) for x in st["pat"]["elems"]]
             if len(names) == 2:
-                roles[names[0]] = "HAS_SHARED"
-                roles[names[1]] = "WRAPPING"
+                for i_, nm_ in enumerate(names):
+                    roles[nm_] = comps[i_][0] if i_ in comps else ("HAS_SHARED", "WRAPPING")[i_]
+        elif r == "self.shared_attr_info()" and A.kind(st["pat"]) == "Pat::Struct":
+            for fp in st["pat"]["fields"]:
+                mn = fp["member"]["0"]["sym"] if A.kind(fp["member"]) == "Member::Named" else None
+                ids = A.pat_idents(fp["pat"])
+                if mn in comps and len(ids) == 1:
+                    roles[ids[0]] = comps[mn][0]
         elif A.kind(init["expr"]) == "Expr::Match" and "self.attrs.common.fmt" in A.render(init["expr"]["expr"]) and A.kind(st["pat"]) == "Pat::Ident":
             roles[st["pat"]["ident"]["sym"]] = "MIX_SHARED"
     return roles
@@ -996,12 +1048,15 @@ def rule_shared_decision(ctx):
     want = [
         'self.shared_attr.map_or(true,|attr|attr.contains_arg("_variant"))',
         "self.shared_attr.is_some_and(|attr|attr.transparent_call().map_or(true,|(_,called_trait)|&called_trait!=self.trait_ident||!shared_attr_contains_variant))",
-        "(has_shared_attr,has_shared_attr&&shared_attr_contains_variant)",
     ]
     for w in want:
         if w not in txt:
             ctx.report("shared_attr_info", ctx.where(si.file, si.node), f"`shared_attr_info` no longer computes `{w[:80]}..`: which variants are wrapped / defaulted changes", {"body": txt})
             break
+    else:
+        comps = sorted(v[1] for v in _shared_info_components(si).values())
+        if comps != ["has_shared_attr", "has_shared_attr&&shared_attr_contains_variant"]:
+            ctx.report("shared_attr_info", ctx.where(si.file, si.node), f"`shared_attr_info` no longer returns the pair (present, present && contains `_variant`) (found {comps}): which variants are wrapped / defaulted changes", {"body": txt})
     # wrap shape
     ok = False
     for t in T.templates_of(gb):
@@ -1097,3 +1152,31 @@ def rule_shared_attr_unfiltered(ctx):
                     if r != "None" and not re.fullmatch(r"[\w.]+\.fmt\.as_ref\(\)", r):
                         ctx.report(f"shared-attr:{fn.qual}", ctx.where(fn.file, fv["expr"]), f"`{fn.qual}` hands `{r[:120]}` to the variants as their shared format instead of the enum-level attribute itself: a decision about the shared format taken before the per-variant `shared_attr_info()` ignores what that function checks (the placeholder's trait against the derived trait, modifiers)", {})
     ctx.floor("Expansion literals with shared_attr", n, 2)
+
+
+def rule_literal_parsed(ctx):
+    """LIT-PARSED: what a format literal contains is decided on its *parsed* placeholders only: in impl/src/fmt every `lit.value()` of a format attribute flows into the literal parser (`Placeholder::parse_fmt_string` / `parsing::format_string` / `parsing::format`) or is compared for emptiness; no `contains` / `find` / `starts_with` / `matches` / `split` on the raw text takes part in a decision - a substring test ignores `{{` escaping (`"{{_variant}}"` is plain text) and format specs (`{_variant:?}`)."""
+    TEXT_TESTS = {"contains", "find", "rfind", "starts_with", "ends_with", "matches", "match_indices", "split", "split_once", "strip_prefix", "strip_suffix", "eq_ignore_ascii_case"}
+    n = 0
+    for rel in (MOD, DISPLAY, DEBUG):
+        f = ctx.files.get(rel)
+        if f is None:
+            continue
+        for fn in A.functions(f):
+            if fn.block is None:
+                continue
+            als = A.aliases(fn)
+            for mc, ps in A.find(fn.block, "Expr::MethodCall"):
+                if mc["method"]["sym"] not in TEXT_TESTS:
+                    continue
+                r = A.inline_text(A.render(mc["receiver"]), als).replace(" ", "")
+                if not re.search(r"\blit\.value\(\)", r):
+                    continue
+                n += 1
+                key = f"{rel}::{fn.qual}:{mc['method']['sym']}"
+                ctx.instance(f"lit-parsed:{key}")
+                ctx.report(f"lit-parsed:{key}", ctx.where(f, mc["method"]), f"`{fn.qual}` tests the raw text of the format literal with `.{mc['method']['sym']}(..)`: escaped braces (`{{{{name}}}}` is text, not a placeholder) and format specs are invisible to a substring test, so the decision differs from what `format_args!` does with the same literal", {})
+            for x, _ in A.find(fn.block, "Expr::MethodCall"):
+                if x["method"]["sym"] == "value" and A.render(x["receiver"]).endswith("lit"):
+                    ctx.cur.instances += 1
+    ctx.note(f"{n} raw-text tests on format literals")
